@@ -32,7 +32,7 @@ ASSUMPTIONS = [
 
 def gen_cases(tier, seed):
     rng = np.random.default_rng([seed, 107])
-    n = 25 if tier == 'quick' else 250
+    n = 25 if tier == 'quick' else 1200
     cases = mapcases.nasty_quick_cases(rng, n // 3) + \
         mapcases.random_large_cases(rng, n - n // 3, max_leaves=14,
                                     max_cells=40)
